@@ -82,3 +82,86 @@ def run(rep, f, c, rule='R-SINGLEBYTE'):
                ', '.join('U+%04X (byte %02X, first %02X)' % (v, 0x80 + a, 0x80 + b_) for v, a, b_ in wrong[:3]), site, {'table_entries': 128}, c)
     rep.floor(rule, 'single-byte Encoding statics', n, 28, c, exact=True)
     return n
+
+
+def is_src_unit(b, leaf, depth=0):
+    """a unit loaded from the source buffer (argument 2): src[i], *src.get_unchecked(i), or a local all of whose definitions are such loads"""
+    def root_is_src(x):
+        x = strip_ref(x)
+        while x[0] in ('deref', 'ref'):
+            x = strip_ref(x[1])
+        return x == ('loc', 2)
+    if leaf[0] == 'idx':
+        return root_is_src(leaf[1])
+    if leaf[0] == 'deref' and leaf[1][0] == 'call' and (leaf[1][1] or '').endswith('::get_unchecked') and len(leaf[1][2]) == 2:
+        return root_is_src(leaf[1][2][0])
+    if leaf[0] in ('init', 'loc') and isinstance(leaf[1], int) and leaf[1] > b.arg_count and depth < 3:
+        ds = b.defs.get(leaf[1], [])
+        if not ds or any(d[2] != 'assign' for d in ds):
+            return False
+        r = Resolver(b)
+        for d in ds:
+            r.cur = (d[0], d[1])
+            v = r.rvalue(d[3]['rv'])
+            while v[0] == 'cast':
+                v = v[2]
+            if not is_src_unit(b, v, depth + 1):
+                return False
+        return True
+    return False
+
+
+def raw_copies(rep, f, c, rule='R-SINGLEBYTE'):
+    """The hand-written single-byte loops copy a source unit to the destination as it is only when it is ASCII: every store whose
+    value is the identity function of one source unit (a cast of it) must lie on a path whose conditions confine that unit to
+    00-7F (exact set from the path's conditions, R-RANGE).  A non-ASCII unit has to go through the table."""
+    from paths import summarize, enumerate_block_paths, loop_heads
+    from ranges import ISet, _mk, leaves
+    import r_utf8store
+    from r_xud import value_is
+    ASCII = ISet.of((0, 0x7F))
+    n = 0
+    for fn in ('single_byte::SingleByteEncoder::encode_from_utf16_raw', 'single_byte::SingleByteDecoder::decode_to_utf16_raw'):
+        b = f.body(fn)
+        if b is None:
+            rep.undecidable(rule + '.ascii-copy', fn, 'function not found', None, c)
+            continue
+        site = sp_str(b.raw['span'])
+        heads = loop_heads(b)
+        res = Resolver(b)
+        try:
+            ps = []
+            for h in [0] + list(heads):
+                ps += [summarize(b, blks, end) for blks, end in enumerate_block_paths(b, h, stop=heads, limit=60000)]
+        except OverflowError as e:
+            rep.undecidable(rule + '.ascii-copy', fn, str(e), site, c)
+            continue
+        bad = None
+        k = 0
+        for p in ps:
+            if p.end[0] == 'diverge':
+                continue
+            for e in p.stores():
+                val = e[2]
+                ls = set(leaves(val))
+                if len(ls) != 1:
+                    continue
+                leaf = next(iter(ls))
+                if not is_src_unit(b, leaf):
+                    continue
+                try:
+                    av = _mk(f, b, res, leaf, 16, 0x10000).ev(val)
+                except Exception:
+                    continue
+                dom = r_utf8store.leaf_domain(f, b, p, leaf, 16)
+                if not dom or not value_is(av, dom, 0, 1 << 16):
+                    continue           # not a verbatim copy (a table value, a shifted unit ...)
+                k += 1
+                if not (dom - ASCII).is_empty() if hasattr(dom, 'is_empty') else bool(dom - ASCII):
+                    bad = ('a source unit is copied to the destination verbatim on a path that admits %r' % (dom - ASCII), sp_str(b.blocks[e[3]]['tsp']) if len(e) > 3 and isinstance(e[3], int) else site)
+                    break
+            if bad:
+                break
+        n += k
+        rep.ob(rule + '.ascii-copy', fn, bad is None and k >= 1, bad[0] if bad else 'no verbatim copy of a source unit found', bad[1] if bad else site, {'copies': k}, c)
+    return n
